@@ -632,8 +632,10 @@ where
 
 impl<I: Integer, const N: usize> Hash for Bvf<I, N> {
     fn hash<H: Hasher>(&self, state: &mut H) {
-        self.length.hash(state);
-        for i in 0..Self::capacity_from_bit_len(self.length) {
+        // Equality ignores leading zeros, so only the significant part can be hashed
+        let significant_bits = self.significant_bits();
+        significant_bits.hash(state);
+        for i in 0..Self::capacity_from_bit_len(significant_bits) {
             self.data[i].hash(state);
         }
     }
